@@ -566,6 +566,69 @@ fn check_tape_e(tape: &[u8], gates: &Gates, stats: &mut Stats, counting: bool) -
     Ok(())
 }
 
+/// (f) positions beyond 65 535: a line number, a column, a byte offset or a token length that
+/// does not fit 16 bits is a position like any other (in-process tiling, the `file:L:C` of the
+/// command line, the range of the language server)
+fn large_positions(rep: &mut Report) {
+    let variants: Vec<(&'static str, String, String)> = vec![
+        ("70000-line-feeds-before", "\n".repeat(70_000), String::new()),
+        ("70000-crlf-before", "\r\n".repeat(70_000), String::new()),
+        ("66000-comment-lines-before", "(* c *)\n".repeat(66_000), String::new()),
+        ("70000-blanks-before-on-the-line", String::new(), " ".repeat(70_000)),
+        ("70000-byte-comment-before-on-the-line", String::new(), format!("(*{}*) ", "x".repeat(70_000))),
+        ("70000-byte-string-before-on-the-line", String::new(), format!("s := '{}'; ", "y".repeat(70_000))),
+    ];
+    let out = run_items(&variants, 6, |(name, before, inline), stats| {
+        use crate::drive::*;
+        let text = format!("{}PROGRAM p\nVAR\nx : INT;\ns : STRING;\nEND_VAR\n{}x := nowhere;\nEND_PROGRAM\n", before, inline);
+        let fail = |kind: &str, detail: String| Failure::new("large-positions", kind, format!("{}: {}", name, detail), json!({"variant": name}));
+        stats.case(true, hash_str(name));
+        stats.class(&format!("large-positions.{}", name));
+        check_tiling(&text).map_err(|(k, d)| fail(&k, d))?;
+        let at = text.find("nowhere").unwrap();
+        let (line, _, col, _) = PosIndex::new(&text).pos(at);
+        let dir = Scratch::new("c05f");
+        let p = dir.write("big.st", text.as_bytes()).to_string_lossy().to_string();
+        let out = run_cli(&["check".to_string(), p.clone()], None);
+        if out.timed_out {
+            stats.inconclusive += 1;
+        } else {
+            let shown: Vec<(usize, usize)> = parse_cli_diags(&out.stderr).into_iter().filter(|x| x.code == "P0015" && x.file.is_some()).map(|x| (x.line, x.col)).collect();
+            if shown.is_empty() {
+                return Err(fail("cli-no-diagnostic", format!("`check` reports no P0015 with a location (exit {:?})", out.status)));
+            }
+            if !shown.contains(&(line + 1, col + 1)) {
+                return Err(fail("cli-position", format!("the undefined variable is at line {} column {} (1-based), the command line shows {:?}", line + 1, col + 1, shown)));
+            }
+        }
+        let uri = format!("file://{}", p);
+        let run = lsp_run(&[lsp_initialize(0), lsp_initialized(), lsp_did_open(&uri, 1, &text), lsp_semantic_tokens(json!(5), &uri), lsp_shutdown(6), lsp_exit()]);
+        if run.timed_out {
+            stats.inconclusive += 1;
+            return Ok(());
+        }
+        let mut seen = false;
+        for f in &run.frames {
+            if f["method"] == "textDocument/publishDiagnostics" {
+                for x in f["params"]["diagnostics"].as_array().cloned().unwrap_or_default() {
+                    if x["code"] == "P0015" {
+                        seen = true;
+                        let got = (x["range"]["start"]["line"].as_u64().unwrap_or(u64::MAX), x["range"]["start"]["character"].as_u64().unwrap_or(u64::MAX));
+                        if got != (line as u64, col as u64) {
+                            return Err(fail("lsp-position", format!("the undefined variable is at line {} character {} (0-based), publishDiagnostics shows {:?}", line, col, got)));
+                        }
+                    }
+                }
+            }
+        }
+        if !seen {
+            return Err(fail("lsp-no-diagnostic", "publishDiagnostics carries no P0015".into()));
+        }
+        Ok(())
+    });
+    rep.add(out);
+}
+
 pub fn run(ctx: &Ctx) -> i32 {
     let clock = Clock::start();
     let mut rep = Report::new(
@@ -573,7 +636,7 @@ pub fn run(ctx: &Ctx) -> i32 {
         ctx.tier,
         ctx.seed,
         "exploration",
-        "(a) tokens of generated programs in wild spelling (comments before tokens on a line, multi-line comments, CRLF, non-ASCII, OSCAT headers, one unlexable run) must tile the source: text == source[span], contiguous except reported P0031 ranges, char boundaries, line = number of LF before the start, column = distance from the line start in ONE unit (bytes, chars or UTF-16) for the whole file; (b) every Id reached by the dsl Visitor carries the file id and a span whose text is its spelling and which is an identifier lexeme of the harness' own lexeme table, and every identifier lexeme is the span of some Id; (c) units with one planted fault (C02 planter): every label lies inside the file on char boundaries and the primary label of the planted fault's diagnostic covers the marker the planter wrote (name-carrying codes: exactly an occurrence of the name; call-site codes: the invocation); for a sample of them the `file:L:C` printed by `ironplcc check` and the range.start of the LSP publishDiagnostics equal the recomputed line / column of that label start; (e) programs broken by a blank / comment at a joint where IEC forbids one or by token mutations: the primary label of the P0002 diagnostic covers exactly the text its message quotes. Non-trivial (a): comment / non-ASCII / CRLF / lexical error present; (c) always. Distinct by text hash.",
+        "(a) tokens of generated programs in wild spelling (comments before tokens on a line, multi-line comments, CRLF, non-ASCII, OSCAT headers, one unlexable run) must tile the source: text == source[span], contiguous except reported P0031 ranges, char boundaries, line = number of LF before the start, column = distance from the line start in ONE unit (bytes, chars or UTF-16) for the whole file; (b) every Id reached by the dsl Visitor carries the file id and a span whose text is its spelling and which is an identifier lexeme of the harness' own lexeme table, and every identifier lexeme is the span of some Id; (c) units with one planted fault (C02 planter): every label lies inside the file on char boundaries and the primary label of the planted fault's diagnostic covers the marker the planter wrote (name-carrying codes: exactly an occurrence of the name; call-site codes: the invocation); for a sample of them the `file:L:C` printed by `ironplcc check` and the range.start of the LSP publishDiagnostics equal the recomputed line / column of that label start; (e) programs broken by a blank / comment at a joint where IEC forbids one or by token mutations: the primary label of the P0002 diagnostic covers exactly the text its message quotes; (f) six texts whose positions exceed 65 535 (line feeds, CRLF, comment lines, blanks / a comment / a string on the line before the fault): tiling in process, `file:L:C` of the command line and range.start of the language server. Non-trivial (a): comment / non-ASCII / CRLF / lexical error present; (c) always. Distinct by text hash.",
     );
     let gates = ctx.gates_for("C05");
     let off = gates.off_list();
@@ -595,6 +658,7 @@ pub fn run(ctx: &Ctx) -> i32 {
         check_tape_e(tape, &g, stats, counting)
     });
     rep.add(out);
+    large_positions(&mut rep);
     rep.replay_witnesses(&ctx.findings, &|w| witness(w, &Gates::all_on()));
     rep.extra.insert("gates_off".into(), json!(off));
     rep.assumptions = vec![
